@@ -177,8 +177,8 @@ def spec_consts(interval):
 
 def check(ctx):
     m1 = Mode1(ctx, "MC_Ann")
-    m1.holds("explicit rounds", "C17_quick.cfg", None if ctx.quick else {"MaxEv = 4": "MaxEv = 5"}, timeout=3000)
-    m1.holds("cyclic rounds", "C17_quick.cfg", {"C17_X": "C17_C", "C17_InputsX": "C17_InputsC"})
+    m1.holds("explicit rounds", "C17_quick.cfg", None if ctx.quick else {"MaxEv = 4": "MaxEv = 6"}, timeout=3000)
+    m1.holds("cyclic rounds", "C17_quick.cfg", dict({"C17_X": "C17_C", "C17_InputsX": "C17_InputsC"}, **({} if ctx.quick else {"MaxEv = 4": "MaxEv = 6"})), timeout=3000)
     m1.caught("SwOneShot", "C17_quick.cfg")
     traces = traces_for(ctx.seed, ctx.pick(400, 6000), ctx.pick(9, 14))
     bad, ms = judge(ctx, "Mon_C17", traces + crowd_traces(), "eventgroup histories", payload)
